@@ -18,7 +18,7 @@ RULES = {
     'W1': 'handle packing: check << 32 | index when created; >> 32 and & UINT32_MAX when resolved; qb_handle_t is 64 bits',
     'R9': 'the destructor runs once: when the count reaches zero in qb_hdb_handle_put the slot is made non-ACTIVE before the destructor is called (so that a get from inside it is refused, as it is on the destroy path), and a put on a slot whose count is already below 1 is refused',
 }
-FLOORS = {'R1': 20, 'R2': 3, 'R3': 4, 'R4': 2, 'R5': 3, 'R6': 1, 'R7': 4, 'R8': 2, 'R9': 2, 'W1': 9}
+FLOORS = {'R1': 20, 'R2': 3, 'R3': 4, 'R4': 2, 'R5': 3, 'R6': 1, 'R7': 5, 'R8': 2, 'R9': 2, 'W1': 9}
 
 PUBLIC = ['qb_hdb_handle_get', 'qb_hdb_handle_put', 'qb_hdb_handle_destroy', 'qb_hdb_handle_refcount_get']
 
@@ -365,6 +365,11 @@ def r7(ctx):
                   '%s acts on an entry only after a state test that excludes EMPTY' % name,
                   '%s accepts a handle whose slot is EMPTY when the check value matches what a released slot holds (the all-zero handle, a nocheck handle, a stale copy): '
                   'it reads / changes the count of a slot that holds no object' % name)
+    # the slots of the table come zero-filled from the array (calloc): a slot nobody has written yet must read as EMPTY
+    ctx.check('R7', 'a-zero-filled-slot-is-empty', EMPTY == 0, 'lib/hdb.c (enum QB_HDB_HANDLE_STATE)',
+              'QB_HDB_HANDLE_STATE_EMPTY is 0: a slot as the array hands it out holds no object',
+              'QB_HDB_HANDLE_STATE_EMPTY is %s, not 0: the table\'s slots come zero-filled from qb_array (calloc), so a slot that was counted in handle_count but never written - a create that failed while extending the table - reads as %s: a never-issued handle (check 0) is accepted, with no object behind it'
+              % (EMPTY, [k for k, v in prog.enum('QB_HDB_HANDLE_STATE').items() if v == 0]))
     c = prog.fn('qb_hdb_handle_create')
     claims = [ev for ev in c.events('CALL') if (refcount_op(ev.e, 'qb_hdb_handle', 'ref_count') or ('', ''))[0] == 'inc']
     fails = [r for r in c.returns() if r.e is not None and cval(unwrap(r.e)) is not None and cval(unwrap(r.e)) < 0 and any(c.may_follow(cl, r) for cl in claims)]
